@@ -42,6 +42,9 @@ class Facts:
                        if isinstance(v, str)})
         self.fn = fn_node
         self.used: Set[str] = set()
+        # variable text -> set of simple class names the value is an
+        # instance of (its class and every ancestor)
+        self.inst: Dict[str, Set[str]] = {}
 
     def atom(self, e: ast.expr) -> Optional[bool]:
         cands = [_strip(norm(e))]
@@ -108,6 +111,13 @@ class Facts:
             return self.eval(e.value)
         if isinstance(e, ast.Constant):
             return bool(e.value)
+        if isinstance(e, ast.Call) and norm(e.func) == 'isinstance' and \
+                len(e.args) == 2 and norm(e.args[0]) in self.inst:
+            isa = self.inst[norm(e.args[0])]
+            t = e.args[1]
+            elts = t.elts if isinstance(t, (ast.Tuple, ast.List)) else [t]
+            self.used.add('isinstance:' + norm(e.args[0]))
+            return any(norm(x).split('.')[-1] in isa for x in elts)
         v = self.atom(e)
         if v is None and isinstance(e, ast.Call) and norm(e.func) == 'bool' \
                 and len(e.args) == 1:
